@@ -187,7 +187,9 @@ def _lob_case(draw):
             "atmo": {"kind": "icao", "alt": 0.0},
             "winds": [[draw(st.one_of(st.just(0.0), st.floats(0.0, 130.0), st.floats(20.0, 130.0))),
                        draw(st.one_of(st.just(math.pi), st.just(0.0), st.floats(2.4, 3.9), st.floats(-math.pi, math.pi))), 1e8]]}
-    return {"shot": spec, "h": h, "R": draw(st.floats(50.0, 400.0))}
+    # the configured gravity enters the step rule too (a projectile at rest relative to the air is carried by gravity alone)
+    g = draw(st.one_of(st.none(), st.none(), st.floats(10.0, 200.0), st.sampled_from([50.0, 81.33, 100.0, 160.0])))
+    return {"shot": spec, "h": h, "R": draw(st.floats(50.0, 400.0)), "g": g}
 
 
 def check_lob(case):
@@ -195,6 +197,9 @@ def check_lob(case):
     r = Res()
     spec, h = case["shot"], case["h"]
     cfg = {"max_calc_step_size_feet": h, "cMinimumVelocity": 0.0, "cMaximumDrop": -200.0}
+    if case.get("g") is not None:
+        cfg["cGravityConstant"] = -case["g"]
+        r.label("gravity>standard" if case["g"] > 32.17405 else "gravity<standard")
     sh = build.shot(spec)
     _, Exceeded = build.counting(sh.atmo, 400000)
     try:
@@ -214,7 +219,7 @@ def check_lob(case):
             g = math.sqrt((b.x - a.x) ** 2 + (b.y - a.y) ** 2 + (b.w - a.w) ** 2)
             ratio = max(ratio, adv / max(g, 1e-9))
         if adv > h * (1 + 1e-9):
-            r.bad("C18:step:advance-exceeds-maximum", f"max step {h!r} ft: one step advances {adv!r} ft through the air (wind {w[0]!r} fps from {math.degrees(w[1])!r} deg, "
+            r.bad("C18:step:advance-exceeds-maximum", f"config {cfg}: one step advances {adv!r} ft through the air (wind {w[0]!r} fps from {math.degrees(w[1])!r} deg, "
                   f"ground advance {math.sqrt((b.x - a.x) ** 2 + (b.y - a.y) ** 2 + (b.w - a.w) ** 2)!r} ft at x={a.x!r} ft)")
             break
     r.target = worst / h
@@ -551,7 +556,10 @@ def _unknown_case(draw):
         c = draw(st.sampled_from("abcdefghijklmnopqrstuvwxyz_/"))
         s = name[:i] + c + name[i:] if how == "ins" else (name[:i] + name[i + 1:]) if how == "del" else (name[:i] + c + name[i + 1:])
     else:
-        attrs = [a for a in dir(pb.PreferredUnits) if a not in SLOTS]
+        # names that an attribute look-up on the settings class, the Unit enumeration (an int subclass), the unit module
+        # or the builtins would find although they name no unit
+        attrs = sorted({a for a in dir(pb.PreferredUnits) if a not in SLOTS} | set(dir(Unit)) | set(dir(int)) | set(dir(str))
+                       | set(dir(pb.unit)) | set(dir(__import__("builtins"))) | set(dir(pb.UnitAliases) if hasattr(pb, "UnitAliases") else []))
         s = draw(st.sampled_from(attrs + ["set", "defaults", "__doc__", "__init__", "__class__", "__dict__", "__module__"]))
         s = draw(st.sampled_from([s, s.upper(), " " + s + " "]))
     return {"kind": kind, "text": s, "slot": draw(st.sampled_from(SLOTS))}
